@@ -36,6 +36,8 @@ def units(tier):
         for b in A.KINDS:
             if a != b:
                 us.append(("switch", a, b))
+    for sp in ("Gregorian", "360Day", "365_DAY", "366DAY", "360_day", "366_day"):
+        us.append(("spelling", sp))
     return us
 
 
@@ -55,7 +57,7 @@ def _shape_ok(d):
 
 def check_pair(ctx, kind, c, x, y, do_inverse=True):
     case = lambda: {"kind": "pair", "mode": kind, "a": x.label, "b": y.label}  # noqa: E731
-    exact = pair_exact(x, y)
+    exact = pair_exact(x, y) and not (x.gen or y.gen)
     sig = {"h24": x.h24 or y.h24, "exact": exact}
     impl._H.ticks = 0
     ctx.transitions += 2
@@ -159,6 +161,19 @@ def _far_entries(kind, y):
 
 def run_unit(unit, ctx):
     u, kind = unit[0], unit[1]
+    if u == "spelling":
+        # the calendar named by another accepted spelling (CF form, other capitalisation) measures distances alike
+        sp = unit[1]
+        kx = M.MODE_KIND[sp.lower()]
+        impl.set_mode(sp)
+        cx = M.cal(kx)
+        pts = []
+        for y in (1999, 2000, 2003, 2005, 2100):
+            pts += build_pool(ctx, kx, _far_entries(kx, y)[::2])
+        for x in pts:
+            for y_ in pts:
+                check_pair(ctx, kx, cx, x, y_)
+        return
     if u == "switch":
         # distances across several years in mode A, then the same pairs in mode B, then A again, in one process
         for kx in (unit[1], unit[2], unit[1]):
